@@ -390,6 +390,46 @@ Fixpoint decode_mat (alph : list ent) (r c : nat) (code : N) : mat :=
   | 0 => []
   | S r' => let '(l, rest) := decode_line alph c code in l :: decode_mat alph r' c rest
   end.
-Definition ge_block (alph : list ent) (r c : nat) (start : N) (count : nat) : list (list Z) :=
-  map (fun k => enc_result (gaussian_elimination (decode_mat alph r c (start + N.of_nat k)%N)))
+(* compact printable form of a list of integers: a chain of unary constructors, one per decimal
+   digit (Coq prints constructor chains an order of magnitude faster than numerals).
+   K = digit, the number continues; X = last digit of a number; Mi = minus sign. *)
+Inductive ostr :=
+  | OE
+  | K0 (o : ostr) | K1 (o : ostr) | K2 (o : ostr) | K3 (o : ostr) | K4 (o : ostr)
+  | K5 (o : ostr) | K6 (o : ostr) | K7 (o : ostr) | K8 (o : ostr) | K9 (o : ostr)
+  | X0 (o : ostr) | X1 (o : ostr) | X2 (o : ostr) | X3 (o : ostr) | X4 (o : ostr)
+  | X5 (o : ostr) | X6 (o : ostr) | X7 (o : ostr) | X8 (o : ostr) | X9 (o : ostr)
+  | Mi (o : ostr).
+Definition kdig (d : N) (o : ostr) : ostr :=
+  match d with
+  | 0 => K0 o | 1 => K1 o | 2 => K2 o | 3 => K3 o | 4 => K4 o
+  | 5 => K5 o | 6 => K6 o | 7 => K7 o | 8 => K8 o | _ => K9 o
+  end%N.
+Definition xdig (d : N) (o : ostr) : ostr :=
+  match d with
+  | 0 => X0 o | 1 => X1 o | 2 => X2 o | 3 => X3 o | 4 => X4 o
+  | 5 => X5 o | 6 => X6 o | 7 => X7 o | 8 => X8 o | _ => X9 o
+  end%N.
+Fixpoint emit_hi (fuel : nat) (n : N) (o : ostr) : ostr :=
+  match fuel with
+  | 0 => o
+  | S f => if (n =? 0)%N then o else emit_hi f (n / 10)%N (kdig (n mod 10)%N o)
+  end.
+Definition emitN (n : N) (o : ostr) : ostr :=
+  emit_hi (S (N.to_nat (N.size n))) (n / 10)%N (xdig (n mod 10)%N o).
+Definition emitZ (z : Z) (o : ostr) : ostr :=
+  match z with
+  | Z0 => X0 o
+  | Zpos p => emitN (Npos p) o
+  | Zneg p => Mi (emitN (Npos p) o)
+  end.
+Definition ostr_of (l : list Z) : ostr := fold_right emitZ OE l.
+
+Definition ge_block (alph : list ent) (r c : nat) (start : N) (count : nat) : list ostr :=
+  map (fun k => ostr_of (enc_result (gaussian_elimination (decode_mat alph r c (start + N.of_nat k)%N))))
       (seq 0 count).
+Definition ge_list (Ms : list mat) : list ostr :=
+  map (fun M => ostr_of (enc_result (gaussian_elimination M))) Ms.
+(* echo of the decoded inputs of a block (entry encodings only), to tie the two decoders *)
+Definition echo_block (alph : list ent) (r c : nat) (start : N) (count : nat) : list ostr :=
+  map (fun k => ostr_of (enc_rows encE (decode_mat alph r c (start + N.of_nat k)%N))) (seq 0 count).
